@@ -865,3 +865,10 @@ M("C05-default-access-only-for-extension-bases", "C05", "src/cppparser/cppStruct
 M("C05-benign-default-access-struct-test", "C05", "src/cppparser/cppStructType.cxx",
   "      if (_type == T_class) {\n        vis = V_private;\n      } else {\n        vis = V_public;\n      }", "      if (_type != T_class) {\n        vis = V_public;\n      } else {\n        vis = V_private;\n      }",
   benign=True)
+
+M("C17-includer-dir-as-referenced", "C17", "src/cppparser/cppPreprocessor.cxx",
+  "    Filename match(get_file()._filename.get_dirname(), filename);", "    Filename match(get_file()._filename_as_referenced.get_dirname(), filename);",
+  expect="R17.1|find_include|probe#1")
+M("C17-benign-includer-dir-local", "C17", "src/cppparser/cppPreprocessor.cxx",
+  "    Filename match(get_file()._filename.get_dirname(), filename);", "    Filename match(Filename(get_file()._filename.get_dirname()), filename);",
+  benign=True)
